@@ -375,8 +375,8 @@ class E1Runner:
 
 REPLAY_TMPL = '''# replay of a solver-found counterexample: runs the harness in concrete mode
 # against the unmodified modules under /repo with real io.BytesIO streams.
-import sys, json
-sys.path[:0] = ["/verif", "/repo"]
+import sys, json, os
+sys.path[:0] = [os.environ.get("VF_ROOT", "/verif"), "/repo"]
 from vf.e1 import replay_main
 sys.exit(replay_main({harness!r}, json.loads({vals!r}), {ob!r}, {full!r}, {what!r}))
 '''
